@@ -702,6 +702,53 @@ func c05CheckGroup(c *oracleCtx, ops []customOp, src string, lenient bool) {
 		default:
 			c.bump("substitutions-compared")
 		}
+
+		// layout: a registered infix operator as the first token of a line, with and without smart semicolons, is read
+		// like the built-in operator of its level in the same place
+		var regText, biText []string
+		breaks := 0
+		binAt := map[int]bool{} // positions where the reference reads the token as a binary operator
+		var walkBin func(*c05Node)
+		walkBin = func(x *c05Node) {
+			if x.kind == "bin" {
+				binAt[x.at] = true
+			}
+			for _, k := range x.kids {
+				walkBin(k)
+			}
+		}
+		walkBin(ref)
+		for i, t := range toks {
+			lvl, isReg := L.regI[t]
+			if isReg && binAt[i] && c05Representative[lvl] != "" {
+				regText = append(regText, "\n"+t)
+				biText = append(biText, "\n"+c05Representative[lvl])
+				breaks++
+			} else {
+				regText = append(regText, t)
+				biText = append(biText, t)
+			}
+		}
+		if breaks == 0 {
+			return
+		}
+		rsrc, bsrc := strings.Join(regText, " "), strings.Join(biText, " ")
+		for _, smart := range []bool{false, true} {
+			pb.WithSmartSemicolon(smart)
+			r, b := c05Parse(pb, rsrc), c05Parse(pb, bsrc)
+			if (len(r.errs) > 0) != (len(b.errs) > 0) || r.shape != b.shape || r.skel != b.skel {
+				in2 := map[string]any{}
+				for k, v := range input {
+					in2[k] = v
+				}
+				in2["line-start-text"], in2["builtin-variant"], in2["smart"] = rsrc, bsrc, smart
+				c.violation("", fmt.Sprintf("layout: with the operator at the start of a line (smart semicolons %v) the registered operators give %s %s (%s), built-in operators of the same level in their place %s %s (%s)",
+					smart, r.skel, r.shape, oaErrText(r.errs), b.skel, b.shape, oaErrText(b.errs)), in2)
+				break
+			}
+			c.bump("line-start-layouts-compared")
+		}
+		pb.WithSmartSemicolon(false)
 	})
 }
 
